@@ -49,6 +49,10 @@ def generate(seed, tier, index):
         rng.shuffle(sides)
     cfg = {'nslots': nslots, 'sides': sides, 'synth': True, 'suppress': True,
            'dialect': rng.choice(P.PRESET_NAMES)}
+    if rng.random() < 0.2 and not (tier == 'thorough' and index < 24):
+        # Ctrl-C while the plugin reads the inferior's memory during one hit: that message is lost; every later closure must
+        # still be reported faithfully
+        cfg['ctrl_c_in_memory_read'] = [rng.randrange(nslots + n), rng.choice([0, 1, 2, 3, 5, 8, 12, 20, 30])]
     if tier == 'thorough' and index < 24:
         cfg['calibrate_real_gdb'] = True     # stub fidelity: the same hit sequence as a C program under the real gdb
     return {'prop': ID, 'seed': seed, 'config': cfg, 'intents': intents}
@@ -142,6 +146,9 @@ def execute(sc):
         V.bump('closures_%s_%s' % (slot.side, 'sent' if sent else 'received'))
         if len(sim.extract.gdb_fast_access_map) == 0:
             pass
+        if h.get('injected_fault'):
+            V.bump('closures_lost_to_injected_ctrl_c')
+            continue
         if h['exception'] and h.get('extracted') is None:
             V.add('C09/exception', c18.trigger_of(h['exception']) + ':' + kinds_after_array(kinds),
                   'extracting %s (signature %r, %s side, %s) raised: %s' % (cl.brief(), cl.signature, slot.side,
